@@ -101,3 +101,27 @@ Theorem c13_after_ready_extended : forall s x o st,
   run_xt repaired s x = (o, Ok st) ->
   forall n, In n (eager_names s) -> exists v, alookup n (L1 (reg st)) = Some v.
 Proof. intros s x o st H n Hn. exact (run_xt_eager_published repaired s x o st eq_refl H n Hn). Qed.
+
+From IocVerif Require Import Proofs.FactoryXLog.
+(* exactly the sorted runners, each once, in order, after every lifecycle event — also with re-entrant lookups
+   and short-circuited creations *)
+Theorem c13_once_in_order_extended : forall s x o st,
+  run_xt repaired s x = (o, Ok st) ->
+  exists st2, log st = rev (map EvRun (runner_order (normalise repaired s) st2)) ++ log st2
+              /\ Forall (fun e => is_run e = false) (log st2)
+              /\ (forall n, In n (runner_order (normalise repaired s) st2) -> runner_fails s n = false).
+Proof.
+  intros s x o st H. destruct (run_core_xt_log_ok repaired (normalise repaired s) x o st H) as [_ [st2 [Hl [Hg Hn]]]].
+  exists st2. split; [exact Hl|]. split; [|exact Hn].
+  eapply Forall_impl; [|exact Hg]. intros e [He _]. exact He.
+Qed.
+
+Theorem c13_stop_extended : forall s x o k st,
+  run_xt repaired s x = (o, Fail k st) ->
+  Forall (fun e => is_run e = false) (log st) \/
+  exists st2 pre n post,
+    runner_order (normalise repaired s) st2 = pre ++ n :: post /\ runner_fails s n = true
+    /\ (forall m, In m pre -> runner_fails s m = false)
+    /\ log st = EvRun n :: rev (map EvRun pre) ++ log st2
+    /\ Forall (fun e => is_run e = false) (log st2).
+Proof. intros s x o k st H. exact (run_core_xt_log_fail repaired (normalise repaired s) x o k st H). Qed.
